@@ -79,6 +79,8 @@ def record_system(spec):
     rng = np.random.default_rng(spec["seed"])
     q, N, fs = spec["q"], spec["N"], 2.0
     X = [rng.standard_normal(N) for _ in range(q)]
+    if spec.get("drift"):                                          # non-stationary inputs: any re-weighting of segments shows
+        X = [x * np.linspace(0.5, 1.5, N) ** (i + 1) for i, x in enumerate(X)]
     for i in range(1, q):
         X[i] = X[i] + 0.4 * X[0]                                  # correlated inputs
     gains = rng.uniform(-2, 2, size=q)
@@ -86,7 +88,7 @@ def record_system(spec):
     y = 0.5 * rng.standard_normal(N)
     for i in range(q):
         y = y + gains[i] * np.roll(X[i], delays[i])
-    kw = dict(scheduler=spec["sched"], order=spec["order"], Jdes=20, Kdes=8, Lmin=spec["Lmin"], olap=0.5, backend=spec["backend"])
+    kw = dict(scheduler=spec["sched"], order=spec["order"], Jdes=spec.get("Jdes", 20), Kdes=8, Lmin=spec["Lmin"], olap=0.5, backend=spec["backend"])
     ev = []
     with np.errstate(all="ignore"):
         S00 = speckit.compute_spectrum(y, fs, **kw)
@@ -175,6 +177,10 @@ def run(tier):
     for k in range(8 if tier == "quick" else 40):
         specs.append(dict(seed=rnd.randrange(2 ** 31), q=[1, 2, 3, 4][k % 4], N=rnd.choice([2000, 4000]), sched=rnd.choice(["ltf", "vectorized_ltf"]),
                           order=rnd.choice([0, 1, 2]), Lmin=rnd.choice([1, 32]), backend=["numba", "numpy"][(k // 4) % 2]))
+    # long records with short segments on the NumPy backend: bins with K far above the kernels' chunk sizes; auto- and cross-spectra come
+    # from different kernels and must stay mutually consistent (zero residual for an exact combination)
+    for o in ((1,) if tier == "quick" else (0, 1, 2)):
+        specs.append(dict(seed=rnd.randrange(2 ** 31), q=2, N=60000, sched="ltf", order=o, Lmin=1, backend="numpy", Jdes=10, drift=True))
     trs = common.pmap(record_system, specs, chunksize=1)
     vd, tres = traces.validate("MisoTrace", f"{PID}_trace", trs)
     V.model(tres, "MisoTrace.tla (random systems, q = 1..4, both solvers, variants)")
